@@ -196,6 +196,15 @@ def integral_clause(m):
     return worst
 
 
+# class of the known finding `exact-integral-cancelling-currents`: pattern maximum below this fraction of the sum of the
+# moment magnitudes.  The per-pulse difference between exact integral and point moment is at most (k d)^2/24 = 0.51 % of the
+# pulse's moment for a straight pulse with equal halves (C10_exact_integral_partial) and first order in k d for bent or
+# unequal pulses; over 1070 generated structures the differences added up to at most 0.88 % of the moment sum, so 2 % of the
+# pattern maximum is safe only when that maximum is at least 0.0088 / 0.02 = 0.44 of the moment sum.  Observed failures of
+# the 2 % clause: ratios 0.07 … 0.26 (small loops, D-shaped loops, a tee).
+CANCEL_CLASS = 0.45
+
+
 def cancellation_ratio(m):
     """pattern maximum of the point-moment sum relative to the sum of the magnitudes of the current moments: 1 for a short
     straight wire seen broadside, small when the far field is what is left after the moments cancel (small closed loops,
@@ -232,7 +241,7 @@ def replay(rp):
     antgen.pick_sources(rng, m)
     m.compute()
     ibad = integral_bad(m, rp['ant'])[0]
-    if ibad and cancellation_ratio(m) < 0.2:
+    if ibad and cancellation_ratio(m) < CANCEL_CLASS:
         print('replay: in the known-finding class exact-integral-cancelling-currents:', ibad)
         ibad = None
     bad = property_on_impl(m) or ibad or big_request_clause(m)
@@ -275,7 +284,7 @@ def run(ck):
         ib, w = integral_bad(m, ant)
         if w is not None:
             ck.count('integral_clause_cases')
-            if cancellation_ratio(m) < 0.2:
+            if cancellation_ratio(m) < CANCEL_CLASS:
                 # known finding: the far field of this structure is the small remainder of cancelling moments
                 ck.count('integral_clause_cancelling_class')
                 if ib:
